@@ -230,6 +230,57 @@ fn roundtrip_view_windows(ctx: &mut Ctx, pc: usize, pr: usize, wins: &[crate::re
     }
 }
 
+/// Arrays that are the result of a history of operations (emptied row by row / column by column,
+/// reshaped, regrown, ...) must round-trip exactly like freshly constructed ones.
+fn history_roundtrip(ctx: &mut Ctx, seed_mix: u64, nsteps: usize) {
+    use crate::elem::{kv_reset, Kv};
+    use crate::wl_hist::{rand_step_pub, Hist, Step, StepOut};
+    use crate::wl_insrem::Axis;
+    kv_reset();
+    let mut rng = Rng::from_parts(ctx.seed, seed_mix, 186);
+    let mut h = Hist::<Kv>::new();
+    h.valid_only = true;
+    // scripted prefixes that empty an array through each removal path
+    let script: Vec<Step> = match seed_mix % 6 {
+        0 => vec![Step::FromVec(3, 2, 6), Step::Rem { axis: Axis::Row, idx: 0, pop: false, front: 0, back: 0, inter: 0 }, Step::Rem { axis: Axis::Row, idx: 0, pop: false, front: 1, back: 0, inter: 0 }],
+        1 => vec![Step::FromVec(2, 3, 6), Step::Rem { axis: Axis::Col, idx: 0, pop: false, front: 0, back: 0, inter: 0 }, Step::Rem { axis: Axis::Col, idx: 0, pop: false, front: 0, back: 1, inter: 0 }],
+        2 => vec![Step::FromVec(3, 1, 3), Step::Rem { axis: Axis::Row, idx: 0, pop: true, front: 0, back: 0, inter: 0 }],
+        3 => vec![Step::FromVec(1, 3, 3), Step::Rem { axis: Axis::Col, idx: 0, pop: true, front: 0, back: 0, inter: 0 }],
+        4 => vec![Step::FromVec(2, 2, 4), Step::Clear, Step::Ins { axis: Axis::Col, idx: 0, len: 3, push: false, ik: 0 }, Step::SwapDims],
+        _ => vec![],
+    };
+    let mut i = 0usize;
+    while i < nsteps {
+        let st = if i < script.len() { script[i].clone() } else { rand_step_pub(&mut rng, &h.g, 6) };
+        i += 1;
+        let out = h.step(ctx, &st);
+        if out == StepOut::Failed {
+            return;
+        }
+        if out != StepOut::Accepted {
+            continue;
+        }
+        let enc = (i + seed_mix as usize) % 4;
+        let dec = (i / 4 + seed_mix as usize) % 4;
+        ctx.count("calls", 1);
+        let what = || format!("after {:?} (size {:?}) {}->{}", st, h.g.size(), ENC[enc], DEC[dec]);
+        match catches(|| encode(&h.a, enc).and_then(|b| decode::<Kv>(&b, dec).map(|x| (b, x)))) {
+            Err(m) => ctx.violation(DEC[dec], "serde:decode-panicked", format!("{}: {}", what(), m)),
+            Ok(Err(e)) => ctx.violation(DEC[dec], "serde:roundtrip-rejected", format!("{}: {}", what(), e)),
+            Ok(Ok((_bytes, b))) => {
+                let same_ids = b.data().iter().map(|k| k.uid).eq(h.a.data().iter().map(|k| k.uid));
+                if b != h.a || b.size() != h.a.size() || !same_ids {
+                    ctx.violation(DEC[dec], "serde:roundtrip-differs", format!("{}: got size {:?}", what(), b.size()));
+                } else {
+                    ctx.count("roundtrips_ok", 1);
+                    ctx.count("history_roundtrips", 1);
+                    ctx.nontrivial(("C18hist", seed_mix, i));
+                }
+            }
+        }
+    }
+}
+
 pub fn run_c18(ctx: &mut Ctx) {
     let n = nsel(ctx, 1, 2, 2, 4, 8);
     let nrand = nsel(ctx, 0, 1, 2, 40, 2000);
@@ -292,6 +343,15 @@ pub fn run_c18(ctx: &mut Ctx) {
             if ctx.done() {
                 return;
             }
+        }
+    }
+    let nhist = nsel(ctx, 2, 6, 12, 120, 3000);
+    for i in 0..nhist {
+        if ctx.case(|| format!("C18 round trips along a history #{}", i)) {
+            history_roundtrip(ctx, i as u64, 24);
+        }
+        if ctx.done() {
+            return;
         }
     }
     for shape in shapes(nview) {
